@@ -28,7 +28,8 @@ ASSUMPTIONS = [
 REQUIRED_MONITORS = ["completes", "name_is_current_model", "keys_exist", "value_carried", "scale_background_defaulted"]
 REQUIRED_BUCKETS = {"quick": ["table:(3, 1, 2)", "table:(5, 0, 4)", "set:all", "set:subset", "attrs:yes",
                               "magnetic:yes", "underscore:yes", "underscore:no", "hand:yes", "hand:no",
-                              "saved-zero-scale-or-background"]}
+                              "saved-zero-scale-or-background", "after-another-conversion",
+                              "after-conversion-of-same-model-name"]}
 REQUIRED_BUCKETS["thorough"] = REQUIRED_BUCKETS["quick"]
 
 ATTRS = [".width", ".npts", ".nsigmas", ".type", ".lower", ".upper"]
@@ -89,6 +90,20 @@ def gen_cases(tier, seed):
         for new in sorted(tab):
             cases.append({"id": "%s/%s" % ("%d.%d.%d" % ver, new), "version": list(ver), "entry": new,
                           "nsets": nsets, "seed": seed, "group": new, "cost": nsets/8.0})
+    # conversions are independent of what was converted before in the same process: every entry once more after
+    # a conversion of another entry, chosen to share its model name (core_shell_ellipsoid / core_shell_ellipsoid:1),
+    # its table or nothing with it
+    flat = [(ver, new) for ver, tab in sorted(table().items()) for new in sorted(tab)]
+    for j, (ver, new) in enumerate(flat):
+        same = [(v2, n2) for v2, n2 in flat if n2.split(":")[0] == new.split(":")[0] and (v2, n2) != (ver, new)]
+        other = same[0] if same else flat[(j*7 + 3 + seed) % len(flat)]
+        if other == (ver, new):
+            continue
+        if tier == "quick" and not same and j % 6:
+            continue
+        cases.append({"id": "after/%s/%s" % ("%d.%d.%d" % ver, new), "version": list(ver), "entry": new,
+                      "nsets": max(4, nsets//4), "seed": seed, "group": "seq-" + new, "cost": 1.0,
+                      "prelude": [list(other[0]), other[1]]})
     return cases
 
 
@@ -100,6 +115,17 @@ def run_case(case, rec):
     oldname, mapping = entry[0], entry[1]
     target = case["entry"]
     rng = core.rng_for(case["seed"], PROP, "%s/%s" % (ver, target))
+    if case.get("prelude"):
+        # an earlier conversion in this process (its own outcome is judged by its own case)
+        pver, pnew = tuple(case["prelude"][0]), case["prelude"][1]
+        pentry = tab[pver][pnew]
+        pold = {o: 1.5 for o in pentry[1].values() if isinstance(o, str)}
+        try:
+            convert_model(pentry[0], pold, use_underscore=False, model_version=pver)
+        except Exception:
+            pass
+        rec.bucket("after-another-conversion", "after-conversion-of-same-model-name"
+                   if pnew.split(":")[0] == target.split(":")[0] else "after-another-conversion")
     # compose with later tables
     final_model = target.split(":")[0]
     info1, _ = current_names(final_model)
